@@ -43,6 +43,13 @@ def make_user(kind, a):
         def forward(self, input, target=0.0):
             return -(input - target).pow(a).mean(0)
 
+    class MeanStd(HedgeLoss):
+        """mean minus 0.1 sample standard deviations (only defined for samples of at least two paths)"""
+
+        def forward(self, input, target=0.0):
+            pl = input - target
+            return -(pl.mean(0) - 0.1 * pl.std(0))
+
     class WorstCase(HedgeLoss):
         def forward(self, input, target=0.0):
             return -(input - target).min(0).values
@@ -51,7 +58,8 @@ def make_user(kind, a):
         def forward(self, input, target=0.0):
             return -(input - target).max(0).values
 
-    return {"user_mean": Mean, "user_exp": ExpU, "user_power": PowerU, "user_worst": WorstCase, "user_best": BestCase}[kind]()
+    return {"user_mean": Mean, "user_exp": ExpU, "user_power": PowerU, "user_worst": WorstCase, "user_best": BestCase,
+            "user_meanstd": MeanStd}[kind]()
 
 
 def build_criterion(c):
@@ -78,14 +86,14 @@ def build_criterion(c):
 
 
 POSITIVE = {"isoelastic", "user_power"}
-RISK_AVERSE = {"entropic_rm", "entropic_loss", "isoelastic", "es", "oce_exp", "user_exp", "user_power", "user_mean", "user_worst"}
-DEFAULT_SEARCH = {"isoelastic", "oce_exp", "user_mean", "user_exp", "user_power", "user_worst", "user_best"}
+RISK_AVERSE = {"entropic_rm", "entropic_loss", "isoelastic", "es", "oce_exp", "user_exp", "user_power", "user_mean", "user_worst", "user_meanstd"}
+DEFAULT_SEARCH = {"isoelastic", "oce_exp", "user_mean", "user_exp", "user_power", "user_worst", "user_best", "user_meanstd"}
 
 
 @st.composite
 def criterion_spec(draw, kinds=None):
     k = draw(st.sampled_from(kinds or ["entropic_rm", "entropic_loss", "isoelastic", "es", "qcvar", "oce_exp", "user_mean",
-                                        "user_exp", "user_power", "user_worst", "user_best"]))
+                                        "user_exp", "user_power", "user_worst", "user_best", "user_meanstd"]))
     c = {"kind": k}
     if k in ("entropic_rm", "entropic_loss", "oce_exp", "user_exp"):
         c["a"] = draw(st.sampled_from([1.0, 0.5, 2.0, 0.25, 3.0]))
@@ -120,6 +128,9 @@ def ce_exact(c, col):
         return (mp.fsum(x ** a for x in xs) / n) ** (1 / mp.mpf(a))
     if k == "user_mean":
         return mp.fsum(xs) / n
+    if k == "user_meanstd":
+        mean = mp.fsum(xs) / n
+        return mean - mp.mpf("0.1") * mp.sqrt(mp.fsum((x - mean) ** 2 for x in xs) / (n - 1))
     if k == "user_worst":
         return min(xs)
     if k == "user_best":
@@ -143,7 +154,7 @@ def es_candidates(p, col):
 def cash_case(draw):
     dtype = draw(st.sampled_from(["float32", "float64", "float64"]))
     c = draw(criterion_spec())
-    N = draw(st.integers(1, 12))
+    N = draw(st.integers(2 if c["kind"] == "user_meanstd" else 1, 12))
     shape_kind = draw(st.sampled_from(["vec", "vec", "cols", "cols", "cube"]))
     trail = {"vec": (), "cols": (draw(st.integers(1, 3)),), "cube": (2, 2)}[shape_kind]
     pos = c["kind"] in POSITIVE
